@@ -9,6 +9,8 @@ package datastore
 import (
 	"context"
 	"sort"
+	"strconv"
+	"strings"
 
 	sdccache "github.com/sdcio/cache/pkg/cache"
 	"github.com/sdcio/data-server/pkg/config"
@@ -44,9 +46,16 @@ func v17Tree(env *vEnv, upds []*sdcpb.Update) *tree.RootEntry {
 }
 
 func v17Verdict(root *tree.RootEntry, concurrent bool) ([]string, []string) {
+	if verifrt.Param("maporder", 0) == 1 {
+		// Go randomises map iteration: every order of the children maps (<= 4 entries) is explored
+		verifrt.MapOrderNondet(true)
+		defer verifrt.MapOrderNondet(false)
+	}
 	res := root.Validate(context.Background(), &config.Validation{
 		DisableConcurrency: !concurrent,
-		DisabledValidators: config.Validators{MustStatement: true},
+		// param "must" = 1: the must-statement validator is ON (all values are concrete in
+		// these harnesses, so the XPath machine of yang-parser is simply interpreted)
+		DisabledValidators: config.Validators{MustStatement: verifrt.Param("must", 0) == 0},
 	})
 	errs, warns := res.ErrorsStr(), res.WarningsStr()
 	sort.Strings(errs)
@@ -80,8 +89,17 @@ func v17Updates(variant int) []*sdcpb.Update {
 // leafref that dangles (lo5).
 func v17OnDemandTree(env *vEnv) *tree.RootEntry {
 	ctx := context.Background()
-	ifRef := []string{"network-instance", "ni1", "interface", "system0.0", "interface-ref", "interface"}
-	_ = env.model.WriteValue(ctx, "ds", &sdccache.Opts{Store: sdccache.StoreConfig, Path: [][]string{ifRef}}, vBytes(vStrTV("lo5")))
+	// param "dangling" = 1: the running-only leaf names an interface that does not exist, so it
+	// fails its own leafref check whenever it gets validated;
+	// 0: everything is valid (interface ethernet-1/1, subinterface 1 of type routed, bound to
+	// network-instance default as ethernet-1/1.1; the running-only leaf names ethernet-1/1)
+	ifName, sub, ni, niIf, target := "system0", uint64(0), "ni1", "system0.0", "lo5"
+	if verifrt.Param("dangling", 1) == 0 {
+		ifName, sub, ni, niIf, target = "ethernet-1/1", 1, "default", "ethernet-1/1.1", "ethernet-1/1"
+	}
+	subKey := strconv.FormatUint(sub, 10)
+	ifRef := []string{"network-instance", ni, "interface", niIf, "interface-ref", "interface"}
+	_ = env.model.WriteValue(ctx, "ds", &sdccache.Opts{Store: sdccache.StoreConfig, Path: [][]string{ifRef}}, vBytes(vStrTV(target)))
 	treeSCC := tree.NewTreeCacheClient(env.ds.Name(), env.ds.cacheClient)
 	tc := tree.NewTreeContext(treeSCC, env.ds.schemaClient, env.ds.Name())
 	tc.GetTreeSchemaCacheClient().RefreshCaches(ctx)
@@ -91,8 +109,12 @@ func v17OnDemandTree(env *vEnv) *tree.RootEntry {
 	}
 	tc.SetActualOwner("A")
 	upds := []*sdcpb.Update{
-		{Path: vPath(vPE("interface", "name", "system0"), vPE("subinterface", "index", "0"), vPE("description")), Value: vStrTV("d")},
-		{Path: vPath(vPE("network-instance", "name", "ni1"), vPE("interface", "name", "system0.0"), vPE("interface-ref"), vPE("subinterface")), Value: vUintTV(0)},
+		{Path: vPath(vPE("interface", "name", ifName), vPE("subinterface", "index", subKey), vPE("description")), Value: vStrTV("d")},
+		{Path: vPath(vPE("network-instance", "name", ni), vPE("interface", "name", niIf), vPE("interface-ref"), vPE("subinterface")), Value: vUintTV(sub)},
+	}
+	if verifrt.Param("dangling", 1) == 0 {
+		upds = append(upds, &sdcpb.Update{Path: vPath(vPE("interface", "name", ifName), vPE("subinterface", "index", subKey), vPE("type")),
+			Value: &sdcpb.TypedValue{Value: &sdcpb.TypedValue_IdentityrefVal{IdentityrefVal: &sdcpb.IdentityRef{Value: "routed", Prefix: "sdcio_model_common", Module: "sdcio_model_common"}}}})
 	}
 	cu, err := env.ds.expandAndConvertIntent(ctx, "A", 10, upds)
 	if err != nil {
@@ -112,11 +134,14 @@ func v17OnDemandTree(env *vEnv) *tree.RootEntry {
 // whatever the map iteration does with entries created while a children map is being ranged
 // over (Go: "may be produced during the iteration or may be skipped" - the engine explores both).
 func VerifValidateOnDemandLoad() {
-	errs1, warns1 := v17Verdict(v17OnDemandTree(vNewEnv()), false)
+	root1 := v17OnDemandTree(vNewEnv())
+	errs1, warns1 := v17Verdict(root1, false)
 	verifrt.Reach("sequential-done")
 	errs2, warns2 := v17Verdict(v17OnDemandTree(vNewEnv()), false)
 	verifrt.Reach("sequential-again-done")
-	verifrt.Assert(len(errs1) > 0, "C17-scenario-has-errors")
+	if verifrt.Param("dangling", 1) == 1 {
+		verifrt.Assert(len(errs1) > 0, "C17-scenario-has-errors")
+	}
 	v17Same(errs1, errs2, "C17-repeated-sequential-run-same-errors")
 	v17Same(warns1, warns2, "C17-repeated-sequential-run-same-warnings")
 	if verifrt.Param("concurrent", 1) == 1 {
@@ -126,6 +151,17 @@ func VerifValidateOnDemandLoad() {
 		v17Same(errs1, errs3, "C17-same-errors")
 		v17Same(warns1, warns3, "C17-same-warnings")
 	}
+	// the SAME tree validated again: what the first run loaded on demand must not change the verdict
+	errs1b, warns1b := v17Verdict(root1, false)
+	verifrt.Observe("first", strings.Join(errs1, " | "))
+	verifrt.Observe("again", strings.Join(errs1b, " | "))
+	if verifrt.Param("dangling", 1) == 1 {
+		// (situation label: the leaf loaded on demand is itself invalid)
+		v17Same(errs1, errs1b, "C17-same-tree-validated-again-same-errors/leaf-loaded-on-demand-is-invalid")
+	} else {
+		v17Same(errs1, errs1b, "C17-same-tree-validated-again-same-errors")
+	}
+	v17Same(warns1, warns1b, "C17-same-tree-validated-again-same-warnings")
 }
 
 func v17Same(a, b []string, label string) {
